@@ -14,6 +14,18 @@ def run_case(case, rec, cid):
     set_mode(case["mode"])
     rec.begin(cid)
     p = mk_tp(case["p"])
+    if case.get("chain"):
+        # several durations applied in turn, each to the RESULT of the step before (decimal seconds that cancel along the way)
+        q = p
+        for dd in case["chain"]:
+            d = mk_dur(dd)
+            st, q2 = outcome(lambda: q + d)
+            if st != "ok":
+                rec.ev("Add", cid, how="add", p=proj_tp(q), d=proj_dur(d), q=proj_tp(q), ok=False, cls=type(q2).__name__)
+                break
+            rec.ev("Add", cid, how="add", p=proj_tp(q), d=proj_dur(d), q=proj_tp(q2), ok=True, cls="")
+            q = q2
+        return True
     nt = _one(case, rec, cid, p)
     if case.get("also") is not None:       # the same instant written differently, same duration, same process
         for q in respellings(p, random.Random(case["also"])):
@@ -23,6 +35,13 @@ def run_case(case, rec, cid):
 
 def _one(case, rec, cid, p):
     d = mk_dur_via(case["d"], case.get("dvia"))
+    if case.get("prearith"):
+        # earlier in the same process: Duration arithmetic on an EQUAL duration (another object) - sums, differences, conversions
+        from harness.common import Duration
+        e = mk_dur(case["d"])
+        x = Duration(days=1, hours=12)
+        fs = (lambda: e + x, lambda: x + e, lambda: e - x, lambda: e * 2, lambda: e.to_days() + x, lambda: (e + x) + x)
+        outcome(fs[case["prearith"] % len(fs)])       # (one of them: two could undo each other)
     how = case["how"]
     if how == "add":
         st, q = outcome(lambda: p + d)
@@ -54,6 +73,8 @@ def expand(job):
                 case["also"] = rnd.randrange(10 ** 6)
             if not frac and rnd.random() < 0.25:
                 case["dvia"] = rnd.choice(["parse", "floatdays", "standardize"])
+            if rnd.random() < 0.1:
+                case["prearith"] = rnd.randint(1, 6)
             if rnd.random() < 0.04:
                 # exact multiples of the calendar's own cycles: 20871 weeks = 146097 days = 400 Gregorian years, 52/53 weeks, 365/366 days
                 k_ = rnd.choice([1, 1, 2, -1])
@@ -61,6 +82,20 @@ def expand(job):
                                         {"w": 53 * k_}, {"d": 365 * k_}, {"d": 366 * k_}, {"h": 24 * 146097 * k_}, {"d": 360 * 400 * k_}])
                 case.pop("dvia", None)
             yield case
+    elif k == "cancel":
+        for _ in range(job["n"]):
+            sp = gen.spelling(rnd)
+            p = gen.rand_point(rnd, MEANING[sp], wide=False, whole=True, allow24=False)
+            a = rnd.randint(1, 9)
+            b = rnd.randint(1, a)
+            p = dict(p, prec="hms", mi=rnd.choice([0, 0, max(p["mi"], 0)]), ss=rnd.choice([0, 0, 59, 30]), dec=str(a))
+            if rnd.random() < 0.5:
+                p.update(hh=0, mi=0, ss=0)       # ... at the very start of a day (of a year, now and then)
+            sg = rnd.choice([-1, -1, 1])
+            chain = [{"s": sg * b / 10.0}, {"s": sg * (a - b) / 10.0}] if a != b else [{"s": sg * 0.1}] * a
+            if rnd.random() < 0.3:
+                chain = chain + [{"s": -sg * a / 10.0}]
+            yield {"mode": sp, "p": p, "chain": chain, "d": {"s": 0}, "how": "add"}
     elif k == "sweep":      # every day of a year as a start, small steps in both directions
         sp, y = job["mode"], job["y"]
         m = MEANING[sp]
@@ -146,6 +181,7 @@ def jobs(tier, seed):
             out.append({"kind": "sweep", "mode": sp, "y": y, "zone": [(0, 0), (5, 30), (-3, -30)][i % 3]})
         for j in range(8):
             out.append({"kind": "random", "n": 1500, "seed": seed * 100 + j})
+        out.append({"kind": "cancel", "n": 600, "seed": seed * 100 + 70})
         for i, (sp, y) in enumerate(SWEEPS_Q):
             out.append({"kind": "land", "mode": sp, "y": y, "seed": seed * 100 + 50 + i})
     else:
@@ -153,6 +189,8 @@ def jobs(tier, seed):
             out.append({"kind": "sweep", "mode": sp, "y": y, "allreps": True, "zone": [(0, 0), (5, 30), (-3, -30), (13, 45)][i % 4]})
         for j in range(48):
             out.append({"kind": "random", "n": 12000, "seed": seed * 1000 + j, "pfrac": 0.3})
+        for j in range(4):
+            out.append({"kind": "cancel", "n": 5000, "seed": seed * 1000 + 700 + j})
         for i, (sp, y) in enumerate(SWEEPS_T):
             out.append({"kind": "land", "mode": sp, "y": y, "seed": seed * 1000 + 500 + i})
     return out
